@@ -70,7 +70,7 @@ META = {
                 "concatenating to the payload and all but the last frame exactly M bytes, so start_send's cuts fall on frame boundaries; any "
                 "other performative is one frame or an error; the length-delimited decoder delivers the same frames under every partition "
                 "of the byte stream into reads, and decodes what the encoder wrote. Framing constants are regenerated from the source "
-                "(Tie_FrameConsts). The real Transport's bytes are compared with the model every run and parsed by an independent parser. Frame codec: C06_frame_roundtrip - for every channel, every performative of the protocol with any admissible field vector and, for a transfer, any payload, the model of FrameDecoder (header rules, Performative dispatch on the descriptor, typed field loop, payload) applied to the bytes of the model of FrameEncoder returns exactly that frame; both are run against the real Transport / FrameDecoder every run (sub fdec).",
+                "(Tie_FrameConsts). The real Transport's bytes are compared with the model every run and parsed by an independent parser. Frame codec: C06_frame_roundtrip - for every channel, every performative of the protocol with any admissible field vector and, for a transfer, any payload, the model of FrameDecoder (header rules, Performative dispatch on the descriptor, typed field loop, payload) applied to the bytes of the model of FrameEncoder returns exactly that frame; both are run against the real Transport / FrameDecoder every run (sub fdec). C06_transfer_wire_decodes composes the transfer layout with the typed layer and the frame decoder (see C01_wire_transfer_read_back). Fixed defect found by the fdec correspondence: a transfer whose performative does not fit a frame panicked in encode_transfer (65f9300).",
         "design_ref": "DESIGN.md section 4, C06",
         "note": "Trusted: Coq kernel, extraction, translator, the model of tokio-util's decoder (validated by running). Fixed defect: "
                 "oversize non-transfer frames were chopped (a2409e6).",
@@ -231,7 +231,7 @@ META = {
                 "the frames of the next message arrive and the application accepts, over and over, the deliveries returned are exactly the messages sent, once each, in order, no "
                 "delivery is refused for lack of credit and the link is idle again after every round (C01_stream_intact: composes the cut, the reassembly and the credit replenishment). The two models are tied to the code by the C07 (split_transfer against model and encoder) and C10 (Receiver "
                 "against model) correspondences, re-run here; the composed real system (client, listener, both directions, re-chunked byte stream, generated "
-                "configurations) is checked end to end by a direct oracle every run.",
+                "configurations) is checked end to end by a direct oracle every run. On the wire: C01_wire_transfer_read_back - the four transfer performatives of encode_transfer built with the typed-layer model (as given / more / cleared / cleared+more), laid out as C06 proves, are read by the model of the receiving FrameDecoder frame by frame as transfer performatives with exactly the expected fields, the payload parts concatenating to the payload; both ends are run against the real Transport and FrameDecoder every run (fdec xfer cases).",
         "design_ref": "DESIGN.md section 4, C01",
         "note": "Trusted: Coq kernel, extraction, the harnesses. Fixed defect: transfer-ids were assigned per delivery, not per frame: sends stalled after a message "
                 "larger than max-frame-size (83a401a). Known findings: deadlock with channel buffers of 1-2.",
